@@ -142,6 +142,23 @@ theorem fn_sendPingreq (s : S) :
         simp [this, pure, Except.pure, bind, Except.bind]
       · simp [runEffs, runEff, c_PINGREQ, hsend, hrc, rcSuccess]
 
+/-! ### `Client._handle_pingresp` -/
+
+/-- **`Client._handle_pingresp` as the source has it now**: a PINGRESP with remaining length 0 clears the outstanding-PINGREQ
+marker and nothing else - executed on the model that is what the session model does with a PINGRESP (`packetHandle`,
+theorem c08_pingresp) -; any other remaining length is a protocol error and changes nothing -/
+theorem fn_handlePingresp (s : S) (now : Int) (rl : Nat) :
+    Gen.Fn.handlePingresp (rl : Int) now =
+      .ok (if rl = 0 then ((0 : Int), [MEff.setInt "_ping_t" 0]) else ((2 : Int), [])) ∧
+    runEffs s [MEff.setInt "_ping_t" 0] = { s with pingT := 0 } := by
+  constructor
+  · unfold Gen.Fn.handlePingresp
+    by_cases h : rl = 0
+    · subst h; simp [pure, Except.pure, bind, Except.bind]
+    · have : ((rl : Int) != 0) = true := by simp; omega
+      simp [h, this, pure, Except.pure, bind, Except.bind]
+  · simp [runEffs, runEff]
+
 /-! ### `Client.loop_misc` -/
 
 /-- a socket as an object reference: 0 = None -/
